@@ -153,14 +153,75 @@ def _substitute(body, args):
     return out
 
 
-def expand(toks, table, fuel=2000):
+TEXT_BOX_COMMANDS = set(["\\mbox", "\\text", "\\hbox", "\\textbf", "\\textit", "\\textrm", "\\textsf",
+                         "\\texttt", "\\textup", "\\textsl", "\\textsc", "\\textnormal"])
+
+
+def _ifmmode_branch(toks, i, math):
+    """toks[i] is \\ifmmode: return (branch tokens, index after the matching \\fi).  Only \\ifmmode
+    nests here (the generated macro bodies contain no other conditional)."""
+    depth = 0
+    j = i + 1
+    else_at = None
+    while j < len(toks):
+        t = toks[j]
+        if t == "\\ifmmode":
+            depth += 1
+        elif t == "\\fi":
+            if depth == 0:
+                break
+            depth -= 1
+        elif t == "\\else" and depth == 0 and else_at is None:
+            else_at = j
+        j += 1
+    if j >= len(toks):
+        raise ExpandError("\\ifmmode without \\fi")
+    if math:
+        branch = toks[i + 1:(else_at if else_at is not None else j)]
+    else:
+        branch = toks[else_at + 1:j] if else_at is not None else []
+    return branch, j + 1
+
+
+def expand(toks, table, fuel=2000, math=True):
+    """Expand user macros left to right.  The mode (math / text) is tracked through text boxes
+    (\\mbox{..}, \\text{..}, ...), brace groups and $..$ / \\(..\\) inside text, so that \\ifmmode in a
+    macro body selects the branch TeX would select at that place."""
     toks = list(toks)
     out = []
     i = 0
+    mode = bool(math)
+    stack = []                  # saved modes of the open groups / nested formulas
+    text_brace_next = False
     while i < len(toks):
         t = toks[i]
+        if t == "\\ifmmode":
+            branch, j = _ifmmode_branch(toks, i, mode)
+            toks[i:j] = branch
+            continue
         m = table.get(t)
         if m is None:
+            if t in TEXT_BOX_COMMANDS:
+                text_brace_next = True
+            elif t == "{":
+                stack.append(("{", mode))
+                if text_brace_next:
+                    mode = False
+                text_brace_next = False
+            elif t == "}":
+                while stack and stack[-1][0] != "{":
+                    stack.pop()
+                if stack:
+                    mode = stack.pop()[1]
+            elif t in ("$", "\\(", "\\)"):
+                if t != "\\(" and stack and stack[-1][0] == "$":
+                    mode = stack.pop()[1]           # closes a formula opened inside text
+                elif not mode and t != "\\)":
+                    stack.append(("$", mode))
+                    mode = True
+                text_brace_next = False
+            elif t.strip():
+                text_brace_next = False
             out.append(t)
             i += 1
             continue
